@@ -1,7 +1,7 @@
 (* Properties/C01.v — pinned statements only. *)
 From Boreal Require Import Base.Prelude Base.ListX Base.Bytes Base.Sorted Base.Consts Model.Base64 Model.Literals Model.AcScan
   Spec.TextSpec Model.TextCase Proofs.AcScanInsert Proofs.TextFullword Proofs.TextAtoms Proofs.TextLiterals
-  Proofs.TextMain Proofs.TextBase64 Proofs.TextFull Proofs.TextPinned.
+  Proofs.TextMain Proofs.TextBase64 Proofs.TextFull Proofs.TextPinned Proofs.TextCount.
 
 (* The full statement of the property for the model (DESIGN §7 C01), proved at full strength: every
    well-formed declaration (all modifier shapes, base64 with any alphabet included), every input. *)
@@ -15,6 +15,23 @@ Theorem C01_text_matches :
     /\ Forall (fun x => sm_base x = 0
                         /\ sm_data x = slice (sm_off x) (sm_off x + N.min (sm_len x) (p_match_max_length prm)) m) r.
 Proof. exact text_matches_full. Qed.
+
+(* the same, read through the operators a condition applies to the string: `#s` is the number of
+   specified offsets, `$s at o` holds exactly for a specified offset, `$s` exactly when there is one *)
+Theorem C01_count :
+  forall d m prm, wf_decl d = true -> nlen (spec_offsets d m) <= p_max_nb_matches prm ->
+    nlen (model_scan_text prm d m) = nlen (spec_offsets d m).
+Proof. exact text_count. Qed.
+
+Theorem C01_at :
+  forall d m prm o, wf_decl d = true -> nlen (spec_offsets d m) <= p_max_nb_matches prm ->
+    ((exists x, In x (model_scan_text prm d m) /\ sm_off x = o) <-> In o (spec_offsets d m)).
+Proof. exact text_at. Qed.
+
+Theorem C01_found :
+  forall d m prm, wf_decl d = true -> nlen (spec_offsets d m) <= p_max_nb_matches prm ->
+    (model_scan_text prm d m = [] <-> spec_offsets d m = []).
+Proof. exact text_found. Qed.
 
 (* base64: boreal's `encode_base64` (shifts and masks, special cases for the three alignments and the
    1- and 2-byte remainders) is the declarative trimmed encoding, for every alphabet, every non-empty
@@ -125,3 +142,6 @@ Print Assumptions C01_insert_one_per_offset.
 Print Assumptions C01_xor_key_pinned_refuted.
 Print Assumptions C01_duplicate_offset_pinned_refuted.
 Print Assumptions C01_literal_dropped_pinned_refuted.
+Print Assumptions C01_count.
+Print Assumptions C01_at.
+Print Assumptions C01_found.
